@@ -2,11 +2,14 @@
 //! one function (`run`) through which every case is placed, executed under
 //! `catch_unwind`, judged and recorded.
 
+#[allow(unused_imports)]
+use crate::prelude::*;
 use crate::case::{Api, Case};
 use crate::exec::{exec, Ctx};
 use crate::mem::{Arena, Place};
 use crate::report::{set_last, take_panic_msg, Reporter};
 use crate::util::Rng;
+#[cfg(not(target_arch = "wasm32"))]
 use std::panic::{catch_unwind, AssertUnwindSafe};
 
 #[derive(Clone, Copy, PartialEq, Eq, Debug)]
@@ -69,13 +72,18 @@ impl Runner {
     ) -> Runner {
         let mut rng = Rng::new(seed);
         let rng = rng.fork(shard.wrapping_mul(7919) + 13);
+        // creation order matters on wasm32 (the arena created last sits at
+        // the end of linear memory): auxiliary, needle, then haystack
+        let aux_arena = Arena::new(2);
+        let ndl_arena = Arena::new(1);
+        let hay_arena = Arena::new(0);
         Runner {
             prop: prop.to_string(),
             rep: Reporter::new(prop, config, force, use_bitmap),
             ctx: Ctx::default(),
-            hay_arena: Arena::new(0),
-            ndl_arena: Arena::new(1),
-            aux_arena: Arena::new(2),
+            hay_arena,
+            ndl_arena,
+            aux_arena,
             tier,
             seed,
             shard,
@@ -154,18 +162,33 @@ impl Runner {
         let case = Case { api, hay: ph, ndl: pn, a, ops };
         set_last(&prop, &case, hplace, nplace, self.force);
         if self.trace {
+            // multi-megabyte haystacks are identified by their recipe
+            let small;
+            let shown: &Case = if case.hay.len() > (1 << 16) {
+                small = Case { hay: &case.hay[..64], ..case };
+                &small
+            } else {
+                &case
+            };
             println!(
-                "{{\"t\":\"case\",\"prop\":\"{}\",\"force\":{},{}}}",
+                "{{\"t\":\"case\",\"prop\":\"{}\",\"force\":{},\"full_hay_len\":{},\"recipe\":\"{}\",{}}}",
                 prop,
                 self.force,
-                case.json_fields(hplace, nplace)
+                case.hay.len(),
+                self.recipe.as_deref().unwrap_or(""),
+                shown.json_fields(hplace, nplace)
             );
         }
         self.ctx.reset();
         let want = self.rep.want_sample();
         self.ctx.want_text = want;
         let ctx = &mut self.ctx;
+        #[cfg(not(target_arch = "wasm32"))]
         let r = catch_unwind(AssertUnwindSafe(|| exec(&case, ctx)));
+        // wasm32-unknown-unknown has no unwinding: a panic traps, and the
+        // host attributes the trap to the case recorded by `set_last`
+        #[cfg(target_arch = "wasm32")]
+        let r: Result<Result<(), String>, ()> = Ok(exec(&case, ctx));
         let skipped = self.ctx.skipped;
         if skipped {
             self.skipped += 1;
